@@ -57,7 +57,11 @@ class Shrinker:
         for f in self.mod.simplifiers(self.best):
             if self.execs >= self.max_execs:
                 break
-            cand = f(copy.deepcopy(self.best))
+            try:
+                cand = f(copy.deepcopy(self.best))
+            except Exception as e:      # a simplifier that does not apply must never break the report
+                self.log("simplifier %s skipped: %s: %s" % (getattr(f, "__name__", "?"), type(e).__name__, e))
+                continue
             if cand is None or cand == self.best:
                 continue
             if self.try_plan(cand):
